@@ -129,6 +129,33 @@ def dsge_limits(h: Harness, spec, b, g, mind, rng):
             h.holds(site, "depth-exceeds-limit", ["prop_depth", d, res[1]], f"mapped program deeper than {d}", replay)
 
 
+def deep_limits(h: Harness):
+    """limits in the hundreds, in a FRESH interpreter: every accepted limit must be usable (no failure midway, RecursionError
+    included) and respected.  Judged by the worker's own traversal (programs this deep are not piped to the model)."""
+    import json
+    import os
+    import subprocess
+    from pathlib import Path
+    limits = [150, 320] if not h.thorough else [150, 320, 450]
+    env = dict(os.environ)
+    env["PYTHONPATH"] = os.environ.get("VERIF_REPO", "/repo")
+    worker = Path(__file__).resolve().parents[1] / "workers" / "c03_deep_worker.py"
+    p = subprocess.run(["/venv/bin/python", str(worker), json.dumps(limits)], capture_output=True, text=True, env=env, timeout=900)
+    line = next((ln for ln in p.stdout.splitlines() if ln.startswith("C03DEEP ")), None)
+    if line is None:
+        from core import InfraError
+        raise InfraError(f"c03 deep worker failed rc={p.returncode}: {p.stderr[-800:]}")
+    for key, res in json.loads(line[len("C03DEEP "):]).items():
+        gname, dname, limit = key.split("/")
+        site = "DynamicSGE.genotype_to_phenotype" if dname == "dsge" else f"create_genotype[{dname}]"
+        h.seen("deep:" + key, nontrivial=True)
+        h.count("deep-limits:" + dname)
+        if "error" in res:
+            h.fail(site, "feasible-limit-fails", f"{gname} grammar, max depth {limit} (minimum 1), fresh interpreter: creation failed with {res['error']}", [key])
+        elif res["depth"] > int(limit):
+            h.fail(site, "depth-exceeds-limit", f"[python oracle] {gname} grammar: program of depth {res['depth']} under max depth {limit}", [key])
+
+
 def corpus():
     """fixed grammars whose wrapped field types have members of DIFFERENT minimum depth (a tuple needs its deepest
     component, a union its shallowest, a list its element), under abstract and concrete start symbols, in both
@@ -147,6 +174,7 @@ def corpus():
 
 def run(h: Harness):
     rng = h.rng
+    deep_limits(h)
     retry_witness(h)
     ngr = h.n(70, 1200)
     shaped = corpus()
